@@ -122,6 +122,6 @@ CLAIM = dict(
     text="CBMC proofs that every padded LEB128 encoding decodes to the same value and length, that limits / memory / table types and data segments in spec-equivalent "
          "encodings decode to identical structures (and to the encoded field values), and that custom sections are consumed exactly and change nothing. Other section "
          "readers are composed of the proved LEB primitives; their composition is checked only by the bounded re-encoding run on the real binary.",
-    note="Not every section reader has its own relational contract; vectors/payloads bounded where stated; re-encoding run is corroboration, labelled bounded.",
+    note="All 12 instruction-immediate readers of instruction.c are under contract for every padded encoding (value and exact consumption); not every section reader has its own relational contract; vectors/payloads bounded where stated; re-encoding run is corroboration, labelled bounded.",
     technique="CBMC relational contracts (two encodings, one decoder) on the real reader.c + bounded re-encoding corroboration on the built binary",
 )
